@@ -190,6 +190,9 @@ func c04plan(tier string, seed int64) []run.Job {
 		// hidden left recursion behind nullable prefixes of every result-list layout (zero-width alternative first / last / repeated)
 		jobs = append(jobs, run.Job{Family: "hidden", Seed: seed*100000 + 55000 + int64(i), N: per / 4, P: map[string]int{"inputs": 6, "maxlen": 9}})
 		jobs = append(jobs, run.Job{Family: "strings", Seed: seed*100000 + 58000 + int64(i), N: per / 4, P: map[string]int{"inputs": 6}})
+		// SuppressError around half of the references and an eighth of the other sub-expressions: acceptance is unchanged by it
+		jobs = append(jobs, run.Job{Family: "mutual", Seed: seed*100000 + 51000 + int64(i), N: per / 4, P: map[string]int{"inputs": 6, "maxlen": 10, "suppress": 1}})
+		jobs = append(jobs, run.Job{Family: "random", Seed: seed*100000 + 53000 + int64(i), N: per / 4, P: map[string]int{"strat": 1, "maxlen": 8, "inputs": 6, "suppress": 1}})
 		// ... with zero-width marker nodes of the user's own (Pos() == NilPos) among the nullable prefixes
 		jobs = append(jobs, run.Job{Family: "hidden", Seed: seed*100000 + 56000 + int64(i), N: per / 4, P: map[string]int{"inputs": 6, "maxlen": 9, "marks": 1}})
 		jobs = append(jobs, run.Job{Family: "random", Seed: seed*100000 + 80000 + int64(i), N: per / 4, P: map[string]int{"strat": 1, "maxlen": 8, "inputs": 6, "ends": 1, "memoexpr": 0}})
